@@ -18,6 +18,7 @@ SETS = {"etl::static_set": True, "etl::flat_set": False, "etl::flat_multiset": F
 META_EXTRA = 'S2/S3 decided in both orderings left open by lower_bound; S7 (insert returns the found position when an equivalent element exists); PARAM.'
 META = (META[0] + " " + META_EXTRA, META[1])
 META = (META[0] + ' SIB; INITFORM (emplace direct-non-list-initialises the key).', META[1])
+META = (META[0] + ' S6 with the emptied postcondition of extract(); ERASECNT.', META[1])
 
 
 def run(chk, tier):
